@@ -77,6 +77,9 @@ func catalogue(w *world, check string) []kase {
 					if menu == "semantic" && expensive && !vkitThorough() && !cmpQuickOps[name] {
 						continue
 					}
+					if len(w.sc.OnlyOps) > 0 && !inList(w.sc.OnlyOps, name) {
+						continue
+					}
 					mut := faults.Mut{Path: nd.Path, Op: name}
 					out = append(out, kase{Scenario: w.sc, Deviator: d, Slot: s, Path: nd.Path, Op: name, Menu: menu,
 						fault: faults.ContentFault(s, mut, ops[name], mode)})
@@ -111,6 +114,9 @@ func catalogue(w *world, check string) []kase {
 			}
 			// whole-message operators
 			for _, mf := range messageOps(w, s, m, check) {
+				if len(w.sc.OnlyOps) > 0 {
+					break // operator-restricted scenario: field operators only
+				}
 				out = append(out, kase{Scenario: w.sc, Deviator: d, Slot: s, Path: "<message>", Op: mf.Mut.Op, Menu: menu, fault: mf})
 			}
 		}
@@ -269,4 +275,13 @@ func messageOps(w *world, s faults.Slot, m *protocol.Message, check string) []*f
 	})
 	add("nil-message", "inject", func(x *protocol.Message) *protocol.Message { return nil })
 	return out
+}
+
+func inList(l []string, x string) bool {
+	for _, y := range l {
+		if y == x {
+			return true
+		}
+	}
+	return false
 }
